@@ -666,12 +666,18 @@ def Op.singleStep : Op → Prop
 instance : (o : Op) → Decidable o.singleStep := fun o => by
   cases o <;> unfold Op.singleStep <;> infer_instance
 
-/-- a durable write under a key of the plain / graph / table class: `put_durable` of a vector-free
-    value, or `delete_durable` (two steps: log, then apply, both under the log mutex) -/
-def Op.simpleDurable : Op → Bool
-  | .putD k v => decide (k.cls ≠ .cache ∧ k.cls ≠ .emb ∧ v.vec = .none)
-  | .delD k => decide (k.cls ≠ .cache ∧ k.cls ≠ .emb)
-  | _ => false
+/-- an operation on a key that is not an `emb:` key, or a scan: its effect on the key→value map is
+    ONE atomic step, its last (the durable forms on plain / graph / table keys log first) -/
+def Op.noEmb : Op → Bool
+  | .put k _ | .get k | .delete k | .exists_ k | .putD k _ | .delD k => decide (k.cls ≠ .emb)
+  | .scan _ => true
+
+/-- `put_durable` / `delete_durable` of a key of any class but the cache (any value), or a read
+    (get / exists / scan of any key, any prefix) -/
+def Op.durableOrRead : Op → Bool
+  | .putD k _ | .delD k => decide (k.cls ≠ .cache)
+  | .get _ | .exists_ _ | .scan _ => true
+  | .put .. | .delete .. => false
 
 /-- put / get / delete / exists / scan (no `put_durable` / `delete_durable`) -/
 def Op.nonDurable : Op → Bool
